@@ -584,6 +584,10 @@ func (p *svgProps) apply(name, val string, dl *displayList) bool {
 type svgGradient struct {
 	units          string
 	x1, y1, x2, y2 float64
+	// radial: end circle (cx, cy, r), focal (start) circle (fx, fy, fr); fx/fy default to cx/cy, fr to 0, r to 50%
+	radial                bool
+	cx, cy, r, fx, fy, fr float64
+	hasFx, hasFy          bool
 	transform      aff
 	stops          []struct {
 		off float64
@@ -648,7 +652,7 @@ func interpretSVG(doc []byte) *displayList {
 				}
 				if !fr.props.apply(a.Name.Local, a.Value, dl) && !svgKnownIgnorable[a.Name.Local] {
 					switch t.Name.Local {
-					case "linearGradient", "stop", "svg", "image":
+					case "linearGradient", "radialGradient", "stop", "svg", "image":
 					default:
 						dl.tally("svg-attribute-not-interpreted:" + a.Name.Local)
 					}
@@ -739,8 +743,8 @@ func interpretSVG(doc []byte) *displayList {
 			case "defs":
 				inDefs++
 			case "g":
-			case "linearGradient":
-				g := &svgGradient{units: "objectBoundingBox", x1: 0, y1: 0, x2: 1, y2: 0, transform: ident, spread: "pad"}
+			case "linearGradient", "radialGradient":
+				g := &svgGradient{units: "objectBoundingBox", x1: 0, y1: 0, x2: 1, y2: 0, transform: ident, spread: "pad", radial: t.Name.Local == "radialGradient", cx: 0.5, cy: 0.5, r: 0.5}
 				pf := func(name string, dst *float64) {
 					if s, ok := am[name]; ok {
 						s = strings.TrimSpace(s)
@@ -761,6 +765,25 @@ func interpretSVG(doc []byte) *displayList {
 				pf("y1", &g.y1)
 				pf("x2", &g.x2)
 				pf("y2", &g.y2)
+				if g.radial {
+					pf("cx", &g.cx)
+					pf("cy", &g.cy)
+					pf("r", &g.r)
+					_, g.hasFx = am["fx"]
+					_, g.hasFy = am["fy"]
+					pf("fx", &g.fx)
+					pf("fy", &g.fy)
+					pf("fr", &g.fr)
+					if !g.hasFx {
+						g.fx = g.cx
+					}
+					if !g.hasFy {
+						g.fy = g.cy
+					}
+					if g.r < 0 || g.fr < 0 {
+						dl.problem("svg-bad-value", "radialGradient with a negative radius r=%g fr=%g", g.r, g.fr)
+					}
+				}
 				if u, ok := am["gradientUnits"]; ok {
 					g.units = u
 				}
@@ -860,7 +883,7 @@ func interpretSVG(doc []byte) *displayList {
 			switch t.Name.Local {
 			case "defs":
 				inDefs--
-			case "linearGradient":
+			case "linearGradient", "radialGradient":
 				curGrad = nil
 			}
 		}
@@ -930,6 +953,11 @@ func interpretSVG(doc []byte) *displayList {
 				}
 				gr := &gradient{toGrad: inv, p0: oracle.Pt{X: g.x1, Y: g.y1}, p1: oracle.Pt{X: g.x2, Y: g.y2}, extend: [2]bool{true, true}, alpha: opacity,
 					desc: fmt.Sprintf("(%g,%g)->(%g,%g) user units, %d stops", g.x1, g.y1, g.x2, g.y2, len(stops))}
+				if g.radial {
+					// SVG 2 13.2.3: offset 0 on the focal circle (fx, fy, fr), offset 1 on the circle (cx, cy, r)
+					gr = &gradient{toGrad: inv, radial: true, p0: oracle.Pt{X: g.fx, Y: g.fy}, r0: g.fr, p1: oracle.Pt{X: g.cx, Y: g.cy}, r1: g.r, extend: [2]bool{true, true}, alpha: opacity,
+						desc: fmt.Sprintf("radial focal (%g,%g) fr=%g -> (%g,%g) r=%g user units, %d stops", g.fx, g.fy, g.fr, g.cx, g.cy, g.r, len(stops))}
+				}
 				gr.colourAt = func(t float64) colour {
 					if t <= stops[0].off {
 						return stops[0].c
